@@ -113,6 +113,8 @@ class Executor2(Executor):
         return Executor.compare(self, st, op, a, b, ln)
 
     def contains(self, st, container, item, ln):
+        if item.kind == "opaque" and container.kind.startswith("map:"):
+            return Executor.contains(self, st, container, item, ln)
         if container.kind == "opaque" or item.kind == "opaque":
             self.fresh_n += 1
             return z3.Bool("opq_in!%d" % self.fresh_n)
@@ -236,9 +238,22 @@ class Executor2(Executor):
         return Executor.st_Assert(self, s, st)
 
     def st_Delete(self, s, st):
-        if not self.lenient:
-            raise Unsupported("del")
-        return [st], []
+        try:
+            return Executor.st_Delete(self, s, st)
+        except Unsupported:
+            if not self.lenient:
+                raise
+            # del of something outside the model (a local name, an item of an unmodelled container)
+            for t in s.targets:
+                if isinstance(t, ast.Subscript):
+                    probe = st.copy()
+                    try:
+                        b = self.ev(t.value, probe)
+                    except Unsupported:
+                        continue
+                    if b.kind.startswith("map:") or b.kind in ("lenlist", "reflist"):
+                        raise
+            return [st], []
 
     # ------------------------------------------------------------------ length-only lists
     # A heap field of kind `lenlist` is a Python list of which only the LENGTH is modelled
@@ -426,9 +441,18 @@ class Executor2(Executor):
                 itv = None
             if itv is not None and itv.kind.startswith("map:") and isinstance(itv.x, tuple):
                 return self.exec_for_mapkeys(s, st)
+            if itv is not None and itv.kind.startswith("keysnap:"):
+                return self.exec_for_mapkeys(s, st, snapshot=True)
         return self.exec_loop_plain(s, st)
 
     # ---- for k in <dict>: every key of the map exactly once, in an order the proof may not depend on
+    def sp_insnap(self, e, st):
+        """insnap(k): k is one of the keys the enclosing for-loop iterates over"""
+        if "$snap" not in st.env:
+            raise Unsupported("insnap() outside a for-loop over a map")
+        k = self.ev(e.args[0], st)
+        return SV("bool", z3.Select(st.env["$snap"].t, k.t))
+
     def sp_seen(self, e, st):
         """seen(k): key k was visited by an earlier iteration of the enclosing for-loop over a map"""
         if "$seen" not in st.env:
@@ -436,7 +460,17 @@ class Executor2(Executor):
         k = self.ev(e.args[0], st)
         return SV("bool", z3.Select(st.env["$seen"].t, k.t))
 
-    def exec_for_mapkeys(self, s, st):
+    def bi_list(self, e, st):
+        v = self.ev(e.args[0], st)
+        if v.kind.startswith("keysnap:"):
+            return v  # list(d.keys()): the keys d has NOW, in some order
+        if v.kind.startswith("map:") and isinstance(v.x, tuple):
+            return SV("keysnap:" + v.kind.split(":")[1], v.x[3], cls=v.cls, x=v)
+        if self.lenient:
+            return self.opaque()
+        raise Unsupported("list() of %s" % v.kind)
+
+    def exec_for_mapkeys(self, s, st, snapshot=False):
         m_, ci, fn = frontend.resolve(self.cur.target)
         loops = frontend.loops_in(fn)
         try:
@@ -452,9 +486,13 @@ class Executor2(Executor):
         itv = self.ev(s.iter, st)
         ks = itv.kind.split(":")[1]
         ksort = sort_of(ks, self.bits)
-        dom0 = itv.x[3]
+        # snapshot: `for k in list(d.keys())` -- the key set as it was when the list was made; the body
+        # may add and delete keys of d
+        dom0 = itv.t if snapshot else itv.x[3]
         entry = st.copy()
         saved = st.env.get("$seen")
+        saved_snap = st.env.get("$snap")
+        st.env["$snap"] = SV("set:" + ks, dom0)
         st.env["$seen"] = SV("set:" + ks, z3.K(ksort, z3.BoolVal(False)))
         inv0 = self.inv_eval(L.invariant, st, entry)
         if not z3.is_true(inv0):
@@ -492,24 +530,32 @@ class Executor2(Executor):
         head.assume(z3.ForAll([kq], z3.Implies(z3.Select(seen, kq), z3.Select(dom0, kq))))
         head.env["$seen"] = SV("set:" + ks, seen)
         head.assume(self.inv_eval(L.invariant, head, entry))
-        # the iterated dictionary keeps its key set while it is iterated (Python raises RuntimeError otherwise)
-        live = self.ev(s.iter, head.copy())
-        kq2 = z3.Const("kq!%d" % self._nf(), ksort)
-        head.assume(z3.ForAll([kq2], z3.Select(live.x[3], kq2) == z3.Select(dom0, kq2)))
+        if not snapshot:
+            # the iterated dictionary keeps its key set while it is iterated (Python raises RuntimeError otherwise)
+            live = self.ev(s.iter, head.copy())
+            kq2 = z3.Const("kq!%d" % self._nf(), ksort)
+            head.assume(z3.ForAll([kq2], z3.Select(live.x[3], kq2) == z3.Select(dom0, kq2)))
         after, exits_out = [], []
         ex_st = head.copy()
         kq3 = z3.Const("kq!%d" % self._nf(), ksort)
         ex_st.assume(z3.ForAll([kq3], z3.Implies(z3.Select(dom0, kq3), z3.Select(seen, kq3))))
         ex_st.env.pop("$seen", None)
+        ex_st.env.pop("$snap", None)
         if saved is not None:
             ex_st.env["$seen"] = saved
+        if saved_snap is not None:
+            ex_st.env["$snap"] = saved_snap
         after.append(ex_st)
         body_st = head.copy()
         kv = z3.Const("%s!%d" % (s.target.id, self._nf()), ksort)
         body_st.assume(z3.And(z3.Select(dom0, kv), z3.Not(z3.Select(seen, kv))))
         if ks == "bits":
             body_st.assume(self.bits.wf(kv))
-        body_st.env[s.target.id] = SV(ks, kv, cls=itv.cls if ks == "ref" else None)
+        kcls = None
+        if ks == "ref":
+            ty = self.cur.locals.get(s.target.id)
+            kcls = parse_type(ty).cls if ty is not None else None
+        body_st.env[s.target.id] = SV(ks, kv, cls=kcls)
         self.loop_stack.append(tag)
         try:
             normal, exits = self.exec_block(s.body, [body_st])
@@ -528,9 +574,10 @@ class Executor2(Executor):
         for b in back:
             b.env["$seen"] = SV("set:" + ks, z3.Store(seen, kv, z3.BoolVal(True)))
             self._ob(b, self.inv_eval(L.invariant, b, entry), "%s.invariant-preserved" % tag, "loop")
-            lv = self.ev(s.iter, b.copy())
-            kq4 = z3.Const("kq!%d" % self._nf(), ksort)
-            self._ob(b, z3.ForAll([kq4], z3.Select(lv.x[3], kq4) == z3.Select(dom0, kq4)), "%s.iterated-map-keys-not-modified" % tag, "loop")
+            if not snapshot:
+                lv = self.ev(s.iter, b.copy())
+                kq4 = z3.Const("kq!%d" % self._nf(), ksort)
+                self._ob(b, z3.ForAll([kq4], z3.Select(lv.x[3], kq4) == z3.Select(dom0, kq4)), "%s.iterated-map-keys-not-modified" % tag, "loop")
         return after, exits_out
 
     def exec_loop_plain(self, s, st):
